@@ -230,6 +230,7 @@ def run_property(prop, tier, seed, replay=None):
 
     # confirm violations by replay (3x), sort into known / new
     new, known_hit = [], {}
+    nonrepro = []
     seen = set()
     for name, m in sorted(subs.items()):
         # per class keep the two smallest cases over all shards
@@ -259,6 +260,7 @@ def run_property(prop, tier, seed, replay=None):
                     ok += 1
             if ok < 3:
                 m["inconclusive"].append("violation did not reproduce 3x: %s" % key[:400])
+                nonrepro.append(key[:300])
                 continue
             v["replayed"] = last
             e = match_known(prop, v)
@@ -266,6 +268,11 @@ def run_property(prop, tier, seed, replay=None):
                 known_hit.setdefault(e["key"], []).append(v)
             else:
                 new.append(v)
+
+    if len(nonrepro) >= 5:
+        # one flaky case can happen under load; many mean the replay function does not understand
+        # the cases of a sub-check, which would silently drop everything that sub-check finds
+        worker_errors.append("%d violations did not reproduce on replay, e.g. %s" % (len(nonrepro), nonrepro[0]))
 
     # probes for known findings: replay the recorded minimal case
     known_lines = []
